@@ -27,9 +27,30 @@ def p_doc(x):
         if dict(obs[5]) != extra:
             return 'paragraph %d extra data %r, expected %r' % (i, dict(obs[5]), extra)
     want_valid = any(a['kind'] == 'files' for a in doc)
+    before = [type(p).__name__ for p in c.paragraphs], c.to_dict()
     if bool(c.is_valid()) != want_valid:
         return 'is_valid() = %r for a document %s files paragraph' % (c.is_valid(), 'with a' if want_valid else 'without')
+    after = [type(p).__name__ for p in c.paragraphs], c.to_dict()
+    if after != before:
+        return 'asking is_valid() changes the object: paragraph types %r become %r' % (before[0], after[0])
     return None
+
+
+# texts that take the recovery paths (fold, merge, renaming): parsed between the documents so that any state kept
+# across calls (caches, shared default objects) shows up as a wrong reading of a later well-formed document
+POISON = ['Format: f\n\nLicense:\n\nfree text folded here\n\nFiles: *\n',
+          'junk one\n\njunk two\n\nLicense:\n\nmore free words\n',
+          'Files: *\nCopyright: x\nCopyright: y\nLicense: GPL\n t\nLicense: MIT\n',
+          'License:\n\nUnknown: a\nUnknown: b\n\nFiles: a\n']
+
+
+def p_doc_after_recovery(x):
+    i, item = x
+    try:
+        dc.DebianCopyright.from_text(POISON[i % len(POISON)]).to_dict()
+    except Exception as e:  # noqa
+        return 'raises %s on a text that needs recovery' % type(e).__name__
+    return p_doc(item)
 
 
 def p_year(t):
@@ -52,6 +73,8 @@ def run(ctx):
         docs.append((d, G5.render(rng, d)))
     G5.FIRST_MARKER = 0.0
     fails = ctx.prop('prop:dep5', docs, p_doc)
+    fails += [((f[0][1]), f[1] + ' (after parsing a text that takes a recovery path: state kept across calls?)')
+              for f in ctx.prop('prop:dep5-after-recovery', list(enumerate(docs[:ctx.n(600, 6000)])), p_doc_after_recovery)]
     years = list(G.all_strings(['1', '9', '-', ',', ' ', 'a', '(', '٢', '²'], ctx.n(4, 5)))
     ctx.exhaustive.append('all %d strings of length <= %d over 1 9 - , space a ( and two non-ASCII digits through is_year_range' % (len(years), ctx.n(4, 5)))
     fails += ctx.prop('prop:year-range', years, p_year)
